@@ -290,6 +290,7 @@ pub fn expand_event(case: &Value) -> Value {
         "id": case["id"],
         "prog": case["prog"],
         "unrolled": case["unrolled"],
+        "expect": case.get("expect").cloned().unwrap_or(json!("ok")),
         "a": compile_both_levels(case["prog"].as_str().unwrap()),
         "b": compile_both_levels(case["unrolled"].as_str().unwrap()),
     })
